@@ -1,6 +1,7 @@
 import Model.Engine.Base
 import Model.Engine.Skel
 import Model.Engine.SkelWf
+import Model.Engine.Floor
 /-! SkelSys — the commander as a transition system that INTERPRETS control paths of the regenerated skeleton.
 
 Shared state: the store (persisted logs), the batcher's queue, the commander's position (`lastLog`, `lastTXID`), its
@@ -18,8 +19,10 @@ is exclusive.
 store persists a prefix of the queue (`gate`), the process dies and restarts (`crash`: queue, mutex, reservations and
 all requests are lost, the position is reloaded from the store as `Commander.Init` does).
 
-Not modelled here: the account locker (a `lock` is granted at once; the Floor machine's queueing is not exercised),
-balances read from the store (the job carries them).  Core Lean only. -/
+The account locker is the contract proved for `DefaultLocker` under C15, in the form the `Floor` machine states it
+(`Floor.compatible`, FIFO `Floor.recheck` at every release): a `lock` that is not compatible with the holders queues the
+request, which then cannot execute anything until a release grants it.  The balances a request reads are part of the
+job; `readBalances` is enabled only when they are what the store holds.  Core Lean only. -/
 namespace Engine.Skel.Sys
 open Engine
 
@@ -53,6 +56,8 @@ structure Shared where
   lastTx : Int
   mu : Option Nat
   held : List (RefKind × String × Nat)
+  holders : List Floor.Hold := []     -- account locks granted
+  lqueue : List Floor.Hold := []      -- lock requests waiting, FIFO
 deriving Repr, Inhabited
 
 def nextId (last : Option Nat) : Nat := match last with | none => 0 | some i => i + 1
@@ -61,7 +66,15 @@ def countTx (ls : List LogE) : Nat := (ls.filter (·.isTx)).length
 
 /-- `Commander.Init` on a fresh process -/
 def restart (store : List LogE) : Shared :=
-  { store := store, queue := [], last := store.getLast?.map (·.id), lastTx := (countTx store : Int) - 1, mu := none, held := [] }
+  { store := store, queue := [], last := store.getLast?.map (·.id), lastTx := (countTx store : Int) - 1, mu := none, held := [],
+    holders := [], lqueue := [] }
+
+/-- the balance of an account in the persisted log -/
+def balance (store : List LogE) (x : Acct) (asset : String) : Int :=
+  Floor.balanceOf (store.map (fun l => ⟨l, 0⟩)) x asset
+
+/-- the request waits for its account locks -/
+def blocked (sh : Shared) (a : Nat) : Bool := sh.lqueue.any (fun h => h.a = a)
 
 /-- what the log says, apart from its position in the chain -/
 def Job.content (j : Job) (ikSet : Bool) : LogE :=
@@ -135,6 +148,7 @@ def enabled (sh : Shared) (j : Job) (rg : Regs) : Item → Bool
   | .act .muLock _ _ => sh.mu = none
   | .act .muUnlock _ _ => sh.mu = some j.a
   | .act (.wait c) _ _ => c ≠ "persisted" || !sh.queue.any (fun q => q.1 = j.a)
+  | .act .readBalances .ok _ => j.bals.all (fun b => b.1 = "world" || b.2.2 = balance sh.store b.1 b.2.1)
   | _ => true
 
 /-- what the item does to the shared state -/
@@ -146,6 +160,12 @@ def effSh (sh : Shared) (j : Job) (rg : Regs) : Item → Shared
   | .act .allocTxid _ _ => { sh with lastTx := sh.lastTx + 1 }
   | .act .chainLog _ _ => { sh with last := some (nextId sh.last) }
   | .act (.append o _) _ _ => { sh with queue := sh.queue ++ [(j.a, if o = "chained" then rg.chained.getD default else default)] }
+  | .act .lock .ok _ =>
+    { sh with holders := if Floor.compatible sh.holders ⟨j.a, j.r, j.w⟩ then sh.holders ++ [⟨j.a, j.r, j.w⟩] else sh.holders,
+              lqueue := if Floor.compatible sh.holders ⟨j.a, j.r, j.w⟩ then sh.lqueue else sh.lqueue ++ [⟨j.a, j.r, j.w⟩] }
+  | .act .unlock _ _ =>
+    { sh with holders := (Floor.recheck (sh.holders.filter (fun h => h.a ≠ j.a)) sh.lqueue).1,
+              lqueue := (Floor.recheck (sh.holders.filter (fun h => h.a ≠ j.a)) sh.lqueue).2 }
   | _ => sh
 
 /-- … to the request's registers -/
@@ -207,7 +227,8 @@ def persist (sh : Shared) (n : Nat) : Shared :=
 inductive Step (adm : Job → Path → Prop) : State → List Ev → State → Prop
   /-- a request executes its next item -/
   | item (st : State) (pre post : List Proc) (j : Job) (rg : Regs) (dn : Path) (x : Item) (rest : Path)
-      (hp : st.procs = pre ++ ⟨j, rg, dn, true, x :: rest⟩ :: post) (hen : enabled st.sh j rg x = true) :
+      (hp : st.procs = pre ++ ⟨j, rg, dn, true, x :: rest⟩ :: post) (hen : enabled st.sh j rg x = true)
+      (hq : blocked st.sh j.a = false) :
       Step adm st (evsOf st.sh j rg x) ⟨effSh st.sh j rg x, pre ++ ⟨j, effRg st.sh j rg x, dn ++ [x], true, rest⟩ :: post⟩
   /-- the store answers `InsertLogs` for a batch of `n` logs -/
   | gate (st : State) (n : Nat) (ok : Bool) (h0 : 0 < n) (hn : n ≤ st.sh.queue.length) :
@@ -246,7 +267,7 @@ deriving Repr, Inhabited
 inductive StepY (adm : Job → Path → Prop) : YState → List Ev → YState → Prop
   | item (y : YState) (pre post : List Proc) (j : Job) (rg : Regs) (dn : Path) (x : Item) (rest : Path)
       (hp : y.st.procs = pre ++ ⟨j, rg, dn, true, x :: rest⟩ :: post) (hen : enabled y.st.sh j rg x = true)
-      (hrun : y.running = none ∨ y.running = some j.a) :
+      (hq : blocked y.st.sh j.a = false) (hrun : y.running = none ∨ y.running = some j.a) :
       StepY adm y (evsOf y.st.sh j rg x)
         ⟨⟨effSh y.st.sh j rg x, pre ++ ⟨j, effRg y.st.sh j rg x, dn ++ [x], true, rest⟩ :: post⟩,
          if endsSegment x || rest.isEmpty then none else some j.a⟩
@@ -264,7 +285,7 @@ inductive RunY (adm : Job → Path → Prop) : YState → List Ev → YState →
 theorem StepY.toStep {adm : Job → Path → Prop} {y y' : YState} {evs : List Ev} (h : StepY adm y evs y') :
     Step adm y.st evs y'.st := by
   cases h with
-  | item pre post j rg dn x rest hp hen _ => exact Step.item _ pre post j rg dn x rest hp hen
+  | item pre post j rg dn x rest hp hen hq _ => exact Step.item _ pre post j rg dn x rest hp hen hq
   | gate n ok h0 hn _ => cases ok <;> exact Step.gate _ n _ h0 hn
   | crash => exact Step.crash _
   | arrive j p hf ha => exact Step.arrive _ j p hf ha
